@@ -226,7 +226,7 @@ namespace c08
         if(!dense_inverse(bs, f[size_t(i) * n + i], dinv[i])) { ok = false; return; }
         // reject nearly singular pivots: the comparison tolerance would be meaningless
         LD mx = 0; for(auto v : dinv[i]) mx = std::max(mx, fabsl(v));
-        if(mx > 1e6L) { ok = false; return; }
+        if(mx > 64.0L) { ok = false; return; }
       }
     }
     LVec apply(const LVec& d) const
